@@ -82,11 +82,13 @@ def isVariant (root x : String) : Bool :=
 
 /-! ### Hypotheses of `C11_disjoint_partial` (each decidable; the finding classes are their negations) -/
 
-/-- Every name the function binds is also read (in a way that reaches the body scope) or is in the namespace —
-so that it is in the reserved set of every converter-level request.  FALSE for write-only names and for names that
-are read only inside a nested scope binding them (lambda parameter, comprehension target, nested function's local or
-`nonlocal`): callers reserve `scope.referenced`, which contains reads only. -/
-def BoundNamesReserved (f : UserFn) : Prop := ∀ x ∈ f.bound, x ∈ f.read ∨ x ∈ f.ns
+/-- Every name the function binds THAT THE NAMER COULD HAND OUT for one of the converters' roots (`break_`, `break__3`,
+`fscope`, …) is also read (in a way that reaches the body scope) or is in the namespace — so that it is in the reserved
+set of every converter-level request.  FALSE for write-only names and for names that are read only inside a nested
+scope binding them (lambda parameter, comprehension target, nested function's local or `nonlocal`): callers reserve
+`scope.referenced`, which contains reads only. -/
+def BoundNamesReserved (f : UserFn) : Prop :=
+  ∀ x ∈ f.bound, Gen.Naming.converterRoots.any (fun r => isVariant r x) = true → x ∈ f.read ∨ x ∈ f.ns
 
 /-- Names the function leaves free are in the namespace snapshot, or cannot be produced from a transpiler root.
 FALSE for a global defined only after conversion (or a builtin) that is called `inner_factory`, `ag__<fname>`, …:
